@@ -12,6 +12,15 @@ from y0.algorithm.transport import (
     get_regular_nodes,
     get_transport_nodes,
     is_transport_node,
+    activate_domain_and_interventions,
+    trso,
+    trso_line1,
+    trso_line2,
+    trso_line3,
+    trso_line4,
+    trso_line6,
+    trso_line9,
+    trso_line10,
 )
 from y0.dsl import Distribution, Fraction, One, PopulationProbability, Probability, Product, Sum, Zero
 from y0.mutate.canonicalize_expr import canonicalize
@@ -123,3 +132,77 @@ def line_6(query):
         if new_query is not None:
             expressions[domain] = new_query
     return expressions
+
+
+def canon_or_none(expression):
+    if expression is None:
+        return None
+    return canonicalize(expression)
+
+
+def pillow_has_transport(graph, district) -> bool:
+    return any(is_transport_node(node) for node in graph.get_markov_pillow(district))
+
+
+# ---- TRSO (Tikka & Karvanen 2019, Algorithm 1 as adapted by the library: lines 1-4, 6/7, 8/11, 9, 10), the order of the tests included
+def trso_algorithm(query):
+    graph = query.graphs[query.domain]
+    # line 1
+    if not query.target_interventions:
+        return canonicalize(trso_line1(query.target_outcomes, query.expression, graph))
+    # line 2
+    outcome_ancestors = graph.ancestors_inclusive(query.target_outcomes)
+    if get_regular_nodes(graph) - outcome_ancestors:
+        return canon_or_none(trso(trso_line2(query, outcome_ancestors)))
+    # line 3
+    additional_interventions = graph.get_no_effect_on_outcomes(query.target_interventions, query.target_outcomes)
+    if additional_interventions:
+        return canon_or_none(trso(trso_line3(query, additional_interventions)))
+    # line 4
+    districts_without_interventions = graph.remove_nodes_from(query.target_interventions).districts()
+    if len(districts_without_interventions) > 1:
+        terms = []
+        for subquery in trso_line4(query, districts_without_interventions).values():
+            term = trso(subquery)
+            if term is None:
+                return None
+            terms.append(term)
+        return canonicalize(Sum.safe(canonicalize(Product.safe(terms)), get_regular_nodes(graph) - query.target_interventions.union(query.target_outcomes)))
+    # lines 6 and 7: only while no experiment is active
+    if not query.active_interventions and query.surrogate_interventions:
+        expressions = {}
+        for domain, subquery in trso_line6(query).items():
+            expression = trso(subquery)
+            if expression is None:
+                continue
+            expression = activate_domain_and_interventions(expression, subquery.active_interventions, domain)
+            if expression is not None:
+                expressions[domain] = expression
+        if len(expressions) == 1:
+            return canonicalize(next(iter(expressions.values())))
+        elif len(expressions) > 1:
+            return canonicalize(next(iter(expressions.values())))
+    # lines 8 / 11
+    districts = graph.districts()
+    if len(districts) == 0:
+        return None
+    elif len(districts) == 1:
+        return None
+    if len(districts_without_interventions) == 0:
+        raise RuntimeError
+    district_without_interventions = districts_without_interventions.pop()
+    # line 9
+    if district_without_interventions in districts:
+        return canonicalize(trso_line9(query, set(district_without_interventions)))
+    # line 10
+    target_districts = [district for district in districts if district_without_interventions.issubset(district)]
+    if len(target_districts) != 1:
+        raise RuntimeError
+    target_district = target_districts.pop()
+    if len(query.active_interventions) == 0:
+        new_surrogate_interventions = {}
+    elif pillow_has_transport(graph, target_district):
+        return None
+    else:
+        new_surrogate_interventions = query.surrogate_interventions
+    return canon_or_none(trso(trso_line10(query, set(target_district), new_surrogate_interventions)))
